@@ -26,6 +26,15 @@ CHECKS = {
     "C20": ("exploration", "runtime monitoring: every diagnostic of an API-specific checker is resolved through types.Info (Uses/PkgName/Builtin) on generated namesake programs with real-API twins",
             "Generated packages re-declare builtins and standard package names at package, import, local, parameter, field and type-parameter scope in same-shape and variadic shapes; a diagnostic whose flagged node only contains namesake callees is a violation; every table entry must be confirmed alive on the real API.",
             "subject table checker->API is part of the harness; diagnostics without a candidate spelling are inconclusive", "5/C20"),
+    "C04": ("exploration", "runtime monitoring: Go race detector on the real binaries (-race -tags verif) under seeded schedule perturbation (hook H1), H1 begin/end trace as interleaving evidence, differential vs the sequential run; concurrent analyzer passes in a -race harness",
+            "go-critic/gocritic built with -race are run at -concurrency {1,2,3,16,64} x GOMAXPROCS {1,2,16} x VERIF_SCHED_SEED over generated, std and repo packages; any race block with a /repo frame or any difference from the -concurrency=1 diagnostics is a violation. The analyzer is exercised by the stock driver over multi-package workspaces and by vrace (N goroutines calling Analyzer.Run behind a barrier for many rounds).",
+            "race detector sees only executed accesses within its history window; perturbation only between checker runs", "5/C04"),
+    "C06": ("exploration", "runtime monitoring of the real binaries: recorded `debug: X is enabled` lines, exit status and diagnostic attributions checked by an executable selection spec over a covering set of flag vectors",
+            "Seeded flag vectors (names, #tags, unknown names/tags, empty entries, duplicates, enable-all, inertness probe with invalid ruleguard parameters) are run through go-critic, gocritic and go-critic-analysis on a probe package where ~90 checkers fire; a greedy generator covers every (checker, class) pair of the five-boolean algebra; documentation marks are checked in C17.",
+            "the spec is 25 lines (props/spec.py); the twin binary is sampled 1/3 in quick since C08 compares its sources", "5/C06"),
+    "C17": ("exploration", "runtime observation of the repository's own generators (precompile.go, makedocs, doc sub-command) compared structurally with the shipped artefacts; exhaustive over groups, checkers and doc rows",
+            "The rule compiler is re-run offline and its output compared AST-equal with rulesdata.go; every rule group's doc comments are compared with the registered checker; makedocs is executed in a scratch layout and compared with docs/overview.md; `doc` output and check-marks are compared with the registry and the selection rule.",
+            "finite space, fully enumerated", "5/C17"),
 }
 
 PENDING = {}
